@@ -28,7 +28,8 @@
 (***************************************************************************)
 EXTENDS Integers, Sequences, FiniteSets, TLC, Json
 
-CONSTANTS GenLen,        \* 0: Init enumerates every script (exhaustive mode); n > 0: scripts of n ops are grown step
+CONSTANTS GenSparse,     \* generation mode only: TRUE = edits only at every fourth position (far-apart changes)
+          GenLen,        \* 0: Init enumerates every script (exhaustive mode); n > 0: scripts of n ops are grown step
                          \* by step (GenOp, GenPlace) so that `tlc -simulate` draws long random scripts
           FixU1,         \* TRUE = character ranges converted to byte columns (repaired), FALSE = compared as they are
           MaxOps,        \* maximal length of the edit script
@@ -172,7 +173,7 @@ Candidates(o) == UNION {WithKinds(o, p) : p \in Placements(o)}
 GenInit == /\ ops = <<>> /\ blocks = <<>> /\ dl = <<>>
            /\ i = 1 /\ q = <<>> /\ prevAdded = FALSE /\ lastTgt = 0 /\ changes = <<>> /\ pc = "gen"
 GenOp == /\ pc = "gen" /\ Len(ops) < GenLen
-         /\ \E x \in {"K", "D", "I"} : ops' = Append(ops, x)
+         /\ \E x \in (IF GenSparse /\ Len(ops) % 4 # 2 THEN {"K"} ELSE {"K", "D", "I"}) : ops' = Append(ops, x)
          /\ UNCHANGED <<blocks, dl, i, q, prevAdded, lastTgt, changes, pc>>
 \* place one or two blocks on lines the script keeps or inserts; some kept tag lines become M ops with a kind
 GenPlace ==
